@@ -223,17 +223,21 @@ class TextFlow:
         }
         self.message = slog.param_names()[2] if len(slog.param_names()) > 2 else "message"
 
-    def leaves(self, e: ast.AST | None, fn: FunctionInfo, esc: bool = False, brace: bool = False, pct: bool = False, depth: int = 10) -> list[_Leaf] | None:
+    def leaves(self, e: ast.AST | None, fn: FunctionInfo, esc: bool = False, brace: bool = False, pct: bool = False, depth: int = 10, at=None) -> list[_Leaf] | None:
+        """`at`: the CFG node at which `e` is evaluated (locals are resolved to the definitions reaching it)."""
         e = unwrap(e) if e is not None else None
         if e is None or depth < 0:
             return None
         g, d, _ = self.ctx[fn.qualname]
         sc = self.sc[fn.qualname]
+        if at is None:
+            # the statement / call node holding this expression
+            at = next((n for n in g.nodes if n.ast is not None and n.kind in ("call", "stmt", "return") and any(x is e for x in ast.walk(n.ast))), None)
 
         def many(xs, **kw) -> list[_Leaf] | None:
             out: list[_Leaf] = []
             for x in xs:
-                sub = self.leaves(x, fn, kw.get("esc", esc), kw.get("brace", brace), kw.get("pct", pct), depth - 1)
+                sub = self.leaves(x, fn, kw.get("esc", esc), kw.get("brace", brace), kw.get("pct", pct), depth - 1, at=kw.get("at", at))
                 if sub is None:
                     return None
                 out += sub
@@ -279,6 +283,23 @@ class TextFlow:
                 return [_Leaf("scope", esc, brace, pct)]
             if fn is self.init and e.id == "trace_id":
                 return [_Leaf("trace_id", esc, brace, pct)]
+            if d.owner(e.id) is not None and at is not None and (rds := sc.reaching_defs(at, e.id)):
+                # each reaching definition is expanded at its own position (`prefix = prefix.replace(..)` reads the earlier one)
+                out_: list[_Leaf] = []
+                for dn in rds:
+                    sub = self.leaves(dn.ast.value, fn, esc, brace, pct, depth - 1, at=dn)
+                    if sub is None:
+                        return None
+                    out_ += sub
+                # a list of parts filled step by step: what the reachable append / extend calls add
+                for n_ in g.nodes:
+                    if n_.kind == "call" and n_.id in sc.reach and isinstance(n_.ast.func, ast.Attribute) and n_.ast.func.attr in ("append", "extend", "insert") and is_name(n_.ast.func.value, e.id):  # type: ignore[union-attr]
+                        for a_ in n_.ast.args:  # type: ignore[union-attr]
+                            sub = self.leaves(a_, fn, esc, brace, pct, depth - 1, at=n_)
+                            if sub is None:
+                                return None
+                            out_ += sub
+                return out_
             if d.owner(e.id) is not None:
                 vals = list(sc.values_of(e.id))
                 if not vals and (sv := d.single_value(e.id)) is not None:
@@ -356,6 +377,13 @@ def evaluate_scope_construction(an: Analysis) -> list[dict]:
 
         def base(e: ast.AST) -> object:
             ev = holder[0].env if holder else base
+            if isinstance(e, ast.Name) and isinstance(e.ctx, ast.Load) and e.id not in params:
+                # a local that starts as the current scope and is then walked along `_parent` in a loop
+                defs_ = [unwrap(v) for k, v in deps_.defs(fi_, e.id) if k == "value"]
+                walks = [v for v in defs_ if isinstance(v, ast.Attribute) and v.attr == "_parent" and is_name(v.value, e.id)]
+                rest = [v for v in defs_ if v not in walks]
+                if walks and len(rest) == 1 and len(defs_) == len(deps_.defs(fi_, e.id)) and eval_expr(rest[0], ev) is CUR:
+                    return Abs("ScopeMetrics", "object", tag="another scope (an ancestor reached by walking _parent from the current scope)")
             if isinstance(e, ast.Call):
                 cal = an.callee(fi_, e)
                 if cal == "contextvars.ContextVar.get":
@@ -375,7 +403,7 @@ def evaluate_scope_construction(an: Analysis) -> list[dict]:
                 if recv is CUR:
                     return _attr_of_current(prog, smc, CUR, e.attr)
                 if isinstance(recv, Abs) and recv.tag.startswith("another scope"):
-                    return (recv.tag, e.attr)
+                    return NOVALUE if e.attr == "_parent" else (recv.tag, e.attr)
                 if isinstance(recv, tuple) and len(recv) == 2 and recv[0] == "current" and recv[1] == "_parent":
                     return ("another scope (the current scope's parent)", e.attr)
             if isinstance(e, ast.Compare) and len(e.ops) == 1 and isinstance(e.ops[0], (ast.Is, ast.IsNot)) and isinstance(e.comparators[0], ast.Constant) and e.comparators[0].value is None:
